@@ -88,7 +88,7 @@ CHECKS = {
    category="proof",
    text="The single-operation members of the statement, bit-precisely for every input: next / nextup / nextdown return the float whose bit pattern is bits(x)+-1 for every normal x whose neighbour in that direction is normal (both branches at float16 and float32, the dividing branch at float64); is_power_of_two (and invert=True) answers exactly 'one significand bit set' on its documented domain at float16/32/64; is_one_or_three_times_power_of_two answers exactly 'significand 1.0 or 1.5' where P*x is finite and the chain stays normal. The real functions run on symbolic floats; one multiplication/division by a format constant per obligation is bit-blasted (z3, cvc5 for the float32 multiplication branch).",
    design_ref="DESIGN.md section 4 C11, 9.7",
-   note="NOT decided by contracts: 3Sum/4Sum/add_dw/mul_add/dot2 ULP bounds and the fma variants (ULP bounds against the correctly rounded exact result over chains of Dekker products; see DESIGN 9.7); next at float64 on the multiplying branch is attempted in the thorough tier and not claimed.",
+   note="NOT decided by contracts: the ULP bounds of 3Sum/4Sum/mul_add/dot2 and of the fma variants (against the correctly rounded exact result over chains of two-sums and Dekker products; see DESIGN 9.7). For these a BOUNDED native stand-in runs the real functions on directed operand tuples (6000/3000/3000 per operation and format, quick; x10 thorough) against an exact rational reference; its obligations are labelled kind=bounded in the evidence, excluded from the obligation counts and never counted as proved; each fma variant is split by input region so that the open known finding (overflow margin with cancellation, fix_overflow=True) cannot hide another failure. next at float64 on the multiplying branch is attempted in the thorough tier and not claimed. is_power_of_two is also verified with the constants of get_is_power_of_two_constants (defect found and repaired).",
    technique="contract-based deductive verification: real functions executed on symbolic IEEE floats, per-path verification conditions in QF_BVFP discharged by z3 5.1 / cvc5 1.0.3"),
  "C13": dict(
    category="proof",
